@@ -414,7 +414,7 @@ def check_c03(idx: Index, tier: str, res: Result) -> None:
                        "numeric built-ins match reference shapes; (5) unknown functions fail as loudly as unknown operators; (6) every "
                        "identifier stored into the IR is passed through sanitizeName.")
     res.rules = ["VOCAB: grammar spellings vs operators table vs reference mapping", "FLAT: shape of the binary templates",
-                 "PREC: pairwise precedence/associativity, Python vs XMILE", "IRLIT: hole-safety of plugin-built IR literals", "PAREN: a parenthesised sentence reaches the generator inside a '()' node",
+                 "PREC: pairwise precedence/associativity, Python vs XMILE", "IRLIT: hole-safety of plugin-built IR literals", "PAREN: a parenthesised sentence reaches the generator inside a '()' node", "LEAF: number/text leaves pass through unchanged",
                  "R1: built-in argument holes vs flat infix probes", "R3: reference shapes of the numeric built-ins",
                  "LOUD: sibling contradiction call/operator branch", "NAMES: who-must-call sanitizeName"]
     res.not_decided = ["that sanitizeName identifies exactly the spellings XMILE treats as equal (a function over strings)",
@@ -602,6 +602,38 @@ def check_c03(idx: Index, tier: str, res: Result) -> None:
               "the 'call' branch answers an unknown function name with %s (and a log line) where the sibling 'operator' branch raises: an "
               "equation outside the supported vocabulary evaluates to a constant instead of failing" % a_call,
               key="LOUD/parseExpression/call-branch-returns-constant")
+
+    # ---- leaves: numbers and already-rendered / empty text pass through parseExpression unchanged -----------------------------------------
+    pparam = params(pe.node)[0]
+    from ..util import deref as _deref0
+    nleaf = 0
+    for n in pe.node.body:
+        if isinstance(n, ast.If) and any(isinstance(x, ast.Name) and x.id in ("str", "float", "int") for x in ast.walk(n.test)) \
+                and any(isinstance(y, ast.Name) and y.id == pparam for x in ast.walk(n.test) for y in (ast.walk(_deref0(pe.node, x)) if isinstance(x, ast.Name) else [x])) \
+                and not any(isinstance(x, ast.Constant) and isinstance(x.value, str) for x in ast.walk(n.test)):
+            for r_ in [x for x in n.body if isinstance(x, ast.Return)]:
+                nleaf += 1
+                res.check("LEAF", "parseExpression returns a %s leaf unchanged" % "/".join(sorted({x.id for x in ast.walk(n.test) if isinstance(x, ast.Name) and x.id in ("str", "float", "int")})),
+                          isinstance(r_.value, ast.Name) and r_.value.id == pparam, pe.loc(r_), pe.qual, norm_stmt(r_)[:80],
+                          "parseExpression rewrites a leaf (%s): the grammar encodes unary minus as a binary '-' whose left operand is the empty string, so an "
+                          "empty leaf that becomes '0' turns `a * -b` into `a * 0 - b`" % norm_stmt(r_)[:60], key="LEAF/parseExpression/%s" % norm_stmt(r_)[:40])
+    res.floor("leaf branches of parseExpression", nleaf, 1)
+
+    # ---- every variable owns its syntax tree: makeExpressionAbsolute edits the tree in place ---------------------------------------------
+    from ..util import deref as _deref
+    px = idx.func(XMILE, "parse_xmile")
+    nabs = 0
+    for c in [c for c in iter_calls(px.node, into_nested=True) if call_name(c) == "makeExpressionAbsolute"]:
+        if len(c.args) < 2:
+            continue
+        nabs += 1
+        tree_arg = _deref(px.node, c.args[1])
+        ok = isinstance(tree_arg, ast.Call) and call_name(tree_arg) in ("visit", "parse", "deepcopy", "copy")
+        res.check("NAMES", "parse_xmile hands makeExpressionAbsolute a freshly parsed tree", ok, px.loc(c), px.qual, src(c.args[1])[:70],
+                  "the tree given to makeExpressionAbsolute is %s, not the result of parsing this variable's own text: makeExpressionAbsolute writes "
+                  "the model prefix into the tree in place, so variables that share a tree (same equation text in another module) all refer to "
+                  "the first module's variables" % src(c.args[1])[:60], key="NAMES/parse_xmile/shared-tree")
+    res.floor("makeExpressionAbsolute call sites in parse_xmile", nabs, 1)
 
     # ---- (6) names -----------------------------------------------------------------------------------------------------------------
     gm = idx.module(GRAMMAR)
@@ -1147,8 +1179,12 @@ def _join_fold(idx: Index, res: Result) -> int:
         res.check("JOIN", "%s.%s keeps both arguments" % (qual, stepf.name), set(ps) <= used, stepf.loc(), stepf.qual, src(rets[0].value)[:80] if rets else "",
                   "the fold step returns a node without %s" % sorted(set(ps) - used), key="JOIN/%s/step-drops-argument" % qual)
         # (d) the accumulator is what is returned after the loop
-        after = [r for r in walk_no_nested(fi.node) if isinstance(r, ast.Return) and seq(r) > seq(lp)]
-        ok = bool(after) and all(src(r.value) == acc for r in after)
+        inside = [r for r in ast.walk(lp) if isinstance(r, ast.Return)]
+        res.check("JOIN", "%s: the fold runs over all of %s" % (qual, coll), not inside, fi.loc(inside[0]) if inside else fi.loc(lp), fi.qual,
+                  norm_stmt(inside[0]) if inside else "", "the fold loop returns from inside its body: only the first element of %s is folded, "
+                  "the remaining names never enter the sum" % coll, key="JOIN/%s/returns-inside-fold" % qual)
+        after = [r for r in walk_no_nested(fi.node) if isinstance(r, ast.Return) and seq(r) > seq(lp) and not any(x is r for x in ast.walk(lp))]
+        ok = (bool(after) or bool(inside)) and all(src(r.value) == acc for r in after)
         res.check("JOIN", "%s returns the accumulator" % qual, ok, fi.loc(after[0]) if after else fi.loc(), fi.qual, src(after[0].value) if after else "",
                   "after the fold %s returns %s, not the accumulator %s" % (qual, src(after[0].value) if after else "nothing", acc),
                   key="JOIN/%s/returns-%s" % (qual, src(after[0].value) if after else "nothing"))
@@ -1298,6 +1334,56 @@ def check_c04(idx: Index, tier: str, res: Result) -> None:
     txt = render(mx.parts, "t", {role: "A" for role, _ in hole_keys(mx.parts)}, rep_n=2)
     ok = nf(parse_expr(txt)) == nf(parse_expr("max([A_0, A_1])"))
     res.check("NONNEG", "max of two arguments is rendered as max([a, b])", ok, mx.loc, "builtins['max']", txt, "MAX(a, b) is generated as %s" % txt, key="NONNEG/max-template")
+    # every scenario of a transpiled model integrates on its own model object (its memo is keyed by time only, not by run spec)
+    from .scenarios import model_per_scenario_rule
+    model_per_scenario_rule(idx, res, "TIME")
+
+    # ---- graphical functions: explicit x points win over the x scale ------------------------------------------------------------------
+    from ..util import implied
+    pe_ = idx.func(XMILE, "parse_entity")
+    gfvar = None
+    for n in walk_no_nested(pe_.node):
+        if isinstance(n, ast.Assign) and isinstance(n.targets[0], ast.Name) and isinstance(n.value, ast.Subscript) and const_str(n.value.slice) == "gf":
+            gfvar = n.targets[0].id
+    if gfvar is None:
+        raise AnalysisError("parse_entity: graphical-function block (entity['gf']) not found")
+
+    def guards_of(target):
+        out = []
+
+        def rec(stmts, acc):
+            for st in stmts:
+                if any(x is target for x in ast.walk(st)):
+                    if isinstance(st, ast.If) and not any(x is target for x in ast.walk(st.test)):
+                        inb = any(x is target for b in st.body for x in ast.walk(b))
+                        rec(st.body if inb else st.orelse, acc + implied(st.test, inb))
+                    elif isinstance(st, (ast.For, ast.While, ast.With, ast.Try)):
+                        rec(list(st.body) + list(getattr(st, "orelse", [])) + [x for h in getattr(st, "handlers", []) for x in h.body] + list(getattr(st, "finalbody", [])), acc)
+                    else:
+                        out.extend(acc)
+                    return
+        rec(pe_.node.body, [])
+        return out
+    xread = [n for n in ast.walk(pe_.node) if isinstance(n, ast.Subscript) and isinstance(n.value, ast.Name) and n.value.id == gfvar and const_str(n.slice) == "xpts"
+             and isinstance(n.ctx, ast.Load)]
+    sread = [n for n in ast.walk(pe_.node) if isinstance(n, ast.Subscript) and isinstance(n.value, ast.Name) and n.value.id == gfvar and const_str(n.slice) == "xscale"]
+    if not xread or not sread:
+        raise AnalysisError("parse_entity: reads of gf['xpts'] / gf['xscale'] not found")
+
+    def has_xpts_atom(gs, want):
+        return any(isinstance(a, ast.Compare) and isinstance(a.ops[0], ast.In) and const_str(a.left) == "xpts" and truth == want for a, truth in gs)
+    gx = guards_of(xread[0])
+    gs_ = guards_of(sread[0])
+    foreign = [a for a, t in gx if not (isinstance(a, ast.Compare) and const_str(getattr(a, "left", None)) in ("xpts", "gf"))]
+    res.check("SIBLING", "graphical function: listed x points are used whenever the document lists them", has_xpts_atom(gx, True) and not foreign, pe_.loc(xread[0]), pe_.qual,
+              "; ".join("%s=%s" % (src(a), t) for a, t in gx)[:120],
+              "gf['xpts'] is read under the conditions [%s]: when the document gives both <xscale> and <xpts> the listed x points are ignored "
+              "and the y points are spread evenly over the scale" % "; ".join("%s is %s" % (src(a), t) for a, t in gx), key="SIBLING/parse_entity/xpts-precedence")
+    res.check("SIBLING", "graphical function: the x scale is spread only when no x points are listed", has_xpts_atom(gs_, False), pe_.loc(sread[0]), pe_.qual,
+              "; ".join("%s=%s" % (src(a), t) for a, t in gs_)[:120],
+              "the evenly spread x values are computed under [%s], not under the absence of <xpts>" % "; ".join("%s is %s" % (src(a), t) for a, t in gs_),
+              key="SIBLING/parse_entity/xscale-only-without-xpts")
+
     # ---- (4) LERP vs _lookup -------------------------------------------------------------------------------------------------------------
     methods, failed = jinja_methods(idx)
     if "LERP" not in methods:
